@@ -5,3 +5,6 @@ cd "$(dirname "$0")"
 rm -rf classes && mkdir -p classes
 javac -nowarn -d classes -cp /opt/veriftools/tla/tla2tools.jar src/verifov/*.java
 echo "tlc overrides built"
+# the *Pure modules are textual copies under another name (the overrides do not capture them)
+sed -e 's/MODULE BigNat -/MODULE BigNatPure /' ../spec/lib/BigNat.tla > ../spec/lib/BigNatPure.tla
+sed -e 's/MODULE GF2 -/MODULE GF2Pure /' ../spec/lib/GF2.tla > ../spec/lib/GF2Pure.tla
